@@ -205,8 +205,26 @@ def run(check):
         g = runfam.gen_terminating(check.seed, "c08-%d" % i, p_fail=0.3, outcomes=["error", "alt", "crash", "deployfail"])
         if g is not None:
             extra.append(g)
+    # ill-typed single-point corruptions of valid programs: whatever preparation decides about them, a run of an accepted one
+    # must not end in an internal consistency error or hand over / return ill-typed data
+    from . import c10
+    ncor = 0
+    for j, g0 in enumerate(c10.programs(check, check.pick(20, 120))):
+        rng = random.Random(derive_seed(check.seed, "c08-cor", j))
+        for kind, p in c10.corruptions(g0, rng):
+            if not kind.startswith("illtyped-"):
+                continue
+            scripts = gen.make_scripts(p.steps, {})
+            inp = gen.base_input(rng, 2)
+            extra.append({"program": p, "scripts": scripts, "input": inp, "shape": "corrupted:%s" % kind, "outcome": {}, "pair": None, "corruption": kind})
+            ncor += 1
+    check.extra["illtyped_corruptions_run"] = ncor
     items = []
     for i, g in enumerate(gs + extra):
+        if g.get("corruption"):
+            case = {"id": "c08-%05d" % i, "files": g["program"].files(), "scripts": g["scripts"], "runs": [{"input": g["input"]}]}
+            items.append((case, None, g))
+            continue
         case, sem = runfam.build_case("c08-%05d" % i, g)
         items.append((case, sem, g))
     table = {}
@@ -231,6 +249,10 @@ def run(check):
             check.inconclusive_case(cid, "%s %s (%s)" % (d["kind"], d["key"], g["shape"]))
             continue
         res = o["result"]
+        if g.get("corruption") and (res.get("parse_err") or res.get("prepare_err")):
+            st_ = check.extra.setdefault("illtyped_corruptions", {"rejected": 0, "accepted": 0})
+            st_["rejected"] += 1
+            continue
         if res.get("parse_err") or res.get("prepare_err"):
             err = res.get("parse_err") or res.get("prepare_err")
             if cell and "failed to create scope for inferred type" in err:
@@ -238,6 +260,19 @@ def run(check):
                 table[cell] = "blocked-by-known-finding: " + err[:120]
             elif cell:
                 table[cell] = "rejected: " + err[:150]
+            continue
+        if g.get("corruption"):
+            st_ = check.extra.setdefault("illtyped_corruptions", {"rejected": 0, "accepted": 0})
+            st_["accepted"] += 1
+            run = (res.get("runs") or [{}])[0]
+            err = run.get("err") or ""
+            if "bug:" in err.lower():
+                check.report("bug@accepted-illtyped:" + g["corruption"], "case %s: ill-typed program (%s) was accepted and its run ended in an internal consistency error: %s" % (cid, g["corruption"], err[:300]),
+                             {"case": case})
+            elif run.get("schema_check"):
+                check.report("schema@accepted-illtyped:" + g["corruption"], "case %s: ill-typed program (%s) was accepted and returned data that does not match OutputSchema(): %s" % (cid, g["corruption"], run["schema_check"][:300]),
+                             {"case": case})
+            check.nontrivial("corrupted|" + g["corruption"])
             continue
         vs = [v for v in mon.monitor_run(case, res, sem) if v.prop in ("C08", "C03", "C02")]
         for e in res.get("events") or []:
